@@ -1,6 +1,200 @@
 //! verif child module of crate::cache — access to the private fields of `Key` for the hasher-flow unit (C12).
+#![allow(static_mut_refs)]
 use super::*;
+
+/// a 16-byte hash built from a slice (FileHash::from(u128) grows a Vec from a dangling pointer, which confused CBMC's
+/// memory model in these units depending on the layout of unrelated symbolic statics)
+fn hash16(first: u8) -> FileHash {
+    let b: [u8; 16] = [first, 0, 0, 0, 0, 0, 0, 0, 0, 0, 0, 0, 0, 0, 0, 0];
+    FileHash::from(&b[..])
+}
 
 pub(crate) fn key_matches(key: &Key, inode: u64, pos: u64, len: u64) -> bool {
     key.file_id.inode == inode as crate::file::InodeId && key.file_id.device == 1 && key.chunk_pos.0 == pos && key.chunk_len.0 == len
 }
+
+// ---------------------------------------------------------------------------------------------------------
+// C12.put_get_records — HashCache::put / HashCache::get over a ghost database (typed_sled::Tree stubbed): what is
+// written for a file, and when a stored entry is served, including the millisecond conversion of the modification time.
+
+
+static mut INSERTS: u32 = 0;
+static mut INSERT_KEY_OK: bool = false;
+static mut INSERTED_MS: u64 = 0;
+static mut INSERTED_LEN: u64 = 0;
+static mut INSERTED_DATA_LEN: u64 = 0;
+static mut INSERTED_HASH: u128 = 0;
+static mut EXISTS: bool = false;
+static mut STORED_PRESENT: bool = false;
+static mut STORED_MS: u64 = 0;
+static mut STORED_FILE_SIZE: u64 = 0;
+static mut STORED_DATA_SIZE: u64 = 0;
+static mut GETS: u32 = 0;
+static mut MTIME_S: u64 = 0; // seconds since the epoch
+static mut MTIME_NS: u32 = 0; // + nanoseconds
+static mut FILE_LEN_NOW: u64 = 0;
+
+fn key_ok(key: &Key) -> bool {
+    key.file_id.device == 1 && key.file_id.inode == 7 && key.chunk_pos.0 == 3 && key.chunk_len.0 == 5
+}
+
+fn stub_tree_insert<K, V>(_t: &typed_sled::Tree<K, V>, key: &K, value: &V) -> sled::Result<Option<V>>
+where
+    K: typed_sled::KV,
+    V: typed_sled::KV,
+{
+    unsafe {
+        let key: &Key = &*(key as *const K as *const Key);
+        let v: &CachedFileInfo = &*(value as *const V as *const CachedFileInfo);
+        INSERTS += 1;
+        INSERT_KEY_OK = key_ok(key);
+        INSERTED_MS = v.modified_timestamp_ms;
+        INSERTED_LEN = v.file_len.0;
+        INSERTED_DATA_LEN = v.data_len.0;
+        INSERTED_HASH = v.hash.u128_prefix();
+    }
+    Ok(None)
+}
+
+fn stub_tree_contains_key<K, V>(_t: &typed_sled::Tree<K, V>, _key: &K) -> sled::Result<bool>
+where
+    K: typed_sled::KV,
+{
+    Ok(unsafe { EXISTS })
+}
+
+fn stub_tree_get<K, V>(_t: &typed_sled::Tree<K, V>, key: &K) -> sled::Result<Option<V>>
+where
+    K: typed_sled::KV,
+    V: typed_sled::KV,
+{
+    unsafe {
+        GETS += 1;
+        let key: &Key = &*(key as *const K as *const Key);
+        assert!(key_ok(key), "C12.get.looks_up_the_given_key");
+        if !STORED_PRESENT {
+            return Ok(None);
+        }
+        let v = CachedFileInfo {
+            modified_timestamp_ms: STORED_MS,
+            file_len: FileLen(STORED_FILE_SIZE),
+            data_len: FileLen(STORED_DATA_SIZE),
+            hash: hash16(77),
+        };
+        let out: V = std::mem::transmute_copy(&v);
+        std::mem::forget(v);
+        Ok(Some(out))
+    }
+}
+
+fn stub_try_recv<T>(_r: &crossbeam_channel::Receiver<T>) -> Result<T, crossbeam_channel::TryRecvError> {
+    Err(crossbeam_channel::TryRecvError::Empty)
+}
+
+fn stub_modified(_m: &std::fs::Metadata) -> std::io::Result<std::time::SystemTime> {
+    unsafe { Ok(UNIX_EPOCH + Duration::new(MTIME_S, MTIME_NS)) }
+}
+
+fn stub_len(_m: &std::fs::Metadata) -> u64 {
+    unsafe { FILE_LEN_NOW }
+}
+
+fn stub_format(_args: std::fmt::Arguments<'_>) -> String {
+    String::new()
+}
+
+fn fake_cache() -> HashCache {
+    unsafe {
+        let mut inner = std::mem::MaybeUninit::<InnerCache>::uninit();
+        std::ptr::write_bytes(inner.as_mut_ptr(), 0, 1); // zero bytes: a non-zero pattern decodes to a CBMC object id
+        let mut fl = std::mem::MaybeUninit::<HashCacheFlusher>::uninit();
+        std::ptr::write_bytes(fl.as_mut_ptr(), 0, 1);
+        HashCache { cache: Arc::new(inner.assume_init()), flusher: fl.assume_init() }
+    }
+}
+
+fn setup() -> (Key, FileMetadata, u64) {
+    unsafe {
+        let secs: u64 = kani::any();
+        let nanos: u32 = kani::any();
+        kani::assume(secs < (1u64 << 40) && nanos < 1_000_000_000);
+        MTIME_S = secs;
+        MTIME_NS = nanos;
+        FILE_LEN_NOW = kani::any();
+        INSERTS = 0;
+        GETS = 0;
+        EXISTS = kani::any();
+    }
+    let key = Key { file_id: FileId { device: 1, inode: 7 }, chunk_pos: FilePos(3), chunk_len: FileLen(5) };
+    let meta = crate::file::verif_file::fake_metadata(1);
+    let ms = unsafe { MTIME_S * 1000 + (MTIME_NS / 1_000_000) as u64 };
+    (key, meta, ms)
+}
+
+#[kani::proof]
+#[kani::stub(alloc::fmt::format, stub_format)]
+#[kani::stub(typed_sled::Tree::insert, stub_tree_insert)]
+#[kani::stub(typed_sled::Tree::contains_key, stub_tree_contains_key)]
+#[kani::stub(typed_sled::Tree::get, stub_tree_get)]
+#[kani::stub(crossbeam_channel::Receiver::try_recv, stub_try_recv)]
+#[kani::stub(std::fs::Metadata::modified, stub_modified)]
+#[kani::stub(std::fs::Metadata::len, stub_len)]
+#[kani::unwind(20)]
+fn c12_put_records() {
+    let (key, meta, ms) = setup();
+    let data_len: u64 = kani::any();
+    let cache = std::mem::ManuallyDrop::new(fake_cache());
+    let r = cache.put(&key, &meta, FileLen(data_len), hash16(99));
+    let ok = r.is_ok();
+    std::mem::forget(r);
+    unsafe {
+        assert!(ok, "C12.put.succeeds_when_the_database_accepts_the_entry");
+        assert!(INSERTS == 1, "C12.put.always_writes_the_entry_also_over_an_existing_one");
+        assert!(INSERT_KEY_OK, "C12.put.writes_under_the_given_key");
+        assert!(INSERTED_MS == ms, "C12.put.records_the_modification_time_in_milliseconds");
+        assert!(INSERTED_LEN == FILE_LEN_NOW, "C12.put.records_the_current_file_length");
+        assert!(INSERTED_DATA_LEN == data_len && INSERTED_HASH == 99, "C12.put.records_data_length_and_hash");
+        kani::cover!(EXISTS, "cover.entry_existed");
+        kani::cover!(MTIME_NS % 1_000_000 != 0, "cover.sub_millisecond_mtime");
+    }
+}
+
+#[kani::proof]
+#[kani::stub(alloc::fmt::format, stub_format)]
+#[kani::stub(typed_sled::Tree::insert, stub_tree_insert)]
+#[kani::stub(typed_sled::Tree::contains_key, stub_tree_contains_key)]
+#[kani::stub(typed_sled::Tree::get, stub_tree_get)]
+#[kani::stub(crossbeam_channel::Receiver::try_recv, stub_try_recv)]
+#[kani::stub(std::fs::Metadata::modified, stub_modified)]
+#[kani::stub(std::fs::Metadata::len, stub_len)]
+#[kani::unwind(20)]
+fn c12_get_records() {
+    let (key, meta, ms) = setup();
+    unsafe {
+        STORED_PRESENT = kani::any();
+        STORED_MS = kani::any();
+        STORED_FILE_SIZE = kani::any();
+        STORED_DATA_SIZE = kani::any();
+    }
+    let cache = std::mem::ManuallyDrop::new(fake_cache());
+    let r = cache.get(&key, &meta);
+    let got = match &r {
+        Ok(Some((l, h))) => Some((l.0, h.u128_prefix())),
+        _ => None,
+    };
+    let ok = r.is_ok();
+    std::mem::forget(r);
+    unsafe {
+        assert!(ok && GETS == 1 && INSERTS == 0, "C12.get.reads_the_database_once_and_writes_nothing");
+        let fresh = STORED_PRESENT && STORED_MS == ms && STORED_FILE_SIZE == FILE_LEN_NOW;
+        assert!(got.is_some() == fresh, "C12.get.served_iff_stored_mtime_ms_and_length_equal_the_current_ones");
+        if fresh {
+            assert!(got == Some((STORED_DATA_SIZE, 77)), "C12.get.serves_exactly_what_was_stored");
+        }
+        kani::cover!(fresh, "cover.hit");
+        kani::cover!(STORED_PRESENT && !fresh, "cover.stale");
+    }
+}
+
+
+
